@@ -958,7 +958,10 @@ impl PackageBuilder {
             IndexEntry::new(
                 IndexTag::RPMTAG_GROUP,
                 offset,
-                IndexData::I18NString(vec!["Unspecified".to_string()]),
+                IndexData::I18NString(vec![match self.group {
+                    Some(group) => group,
+                    None => "Unspecified".to_string(),
+                }]),
             ),
             IndexEntry::new(
                 IndexTag::RPMTAG_ARCH,
@@ -1368,6 +1371,14 @@ impl PackageBuilder {
                 IndexTag::RPMTAG_VENDOR,
                 offset,
                 IndexData::StringTag(vendor),
+            ));
+        }
+
+        if let Some(packager) = self.packager {
+            actual_records.push(IndexEntry::new(
+                IndexTag::RPMTAG_PACKAGER,
+                offset,
+                IndexData::StringTag(packager),
             ));
         }
 
